@@ -106,6 +106,7 @@ func runCheck(prop, tier, repo, overlayFile, only string, writeEvidence, keep, v
 	eng := newEngine()
 	eng.fset = token.NewFileSet()
 	eng.repo = repo
+	eng.prop = prop
 	var overlay map[string][]byte
 	if overlayFile != "" {
 		overlay = map[string][]byte{}
@@ -193,12 +194,13 @@ func runCheck(prop, tier, repo, overlayFile, only string, writeEvidence, keep, v
 	// lemmas
 	lemObls := eng.lemmaObligations(prop)
 	obls = append(obls, lemObls...)
+	obls = append(obls, eng.structuralObligations(prop)...)
 
 	timeout := 10
 	if tier == "thorough" {
 		timeout = 120
 	}
-	workdir := filepath.Join(verifRoot, ".work", prop)
+	workdir := filepath.Join(verifRoot, ".work", fmt.Sprintf("%s-%d", prop, os.Getpid()))
 	os.RemoveAll(workdir)
 	var todo []*Obligation
 	for _, o := range obls {
@@ -227,6 +229,12 @@ func (eng *Engine) safeVerify(fn *ssa.Function, con *Contract) (fc *FnCtx, err e
 		}
 	}()
 	pkg := eng.pkgs[con.PkgPath]
+	if len(fn.Blocks) == 0 && fn.Pkg != nil {
+		fn.Pkg.Build() // package loaded only as a dependency
+	}
+	if len(fn.Blocks) == 0 {
+		return nil, fmt.Errorf("outside subset: function %s has no body", fn)
+	}
 	return eng.verifyFunction(fn, con, pkg)
 }
 
@@ -270,7 +278,27 @@ func (fc *FnCtx) emitAxioms() {
 		}
 		t := fc.evalBool(lm.Clause.Expr, &Env{fc: fc, vars: map[string]Val{}, cur: st, old: st})
 		fc.pkg = save
+		if t == "true" {
+			continue
+		}
+		pos := fc.vc.sc.pos()
 		fc.vc.sc.assert(t)
-		fc.eng.usedAxioms[lm.Name] = lm.Clause.Text
+		// the axiom is included in a query only when one of its uninterpreted
+		// functions occurs in the rest of that query (see Obligation.query)
+		var syms []string
+		for n := range fc.eng.ufs {
+			if strings.Contains(t, "("+sym(n)+" ") {
+				syms = append(syms, sym(n))
+			}
+		}
+		if fc.vc.axLines == nil {
+			fc.vc.axLines = map[int]axLine{}
+		}
+		fc.vc.axLines[pos] = axLine{lm.Name, lm.Clause.Text, syms}
 	}
+}
+
+type axLine struct {
+	name, text string
+	syms       []string
 }
